@@ -48,7 +48,7 @@ class C12(scen.WorldProp):
         for i in range(n):
             N = rng.choice([4, 6, 8, 8, 12, 16])
             nh = rng.randint(max(2, (N + 2) // 3), N - 1)
-            mode = rng.choice(["fixed", "inertia0", "geometric", "geometric", "change", "inertia0"])
+            mode = rng.choice(["fixed", "inertia0", "geometric", "geometric", "change", "inertia0", "inert_then_change"])
             human_leads = rng.random() < 0.35 and mode != "fixed"
             pool = list(range(2, N + 1))
             humans = sorted(rng.sample(pool, nh - 1 if human_leads else nh) + ([1] if human_leads else []))
@@ -58,19 +58,38 @@ class C12(scen.WorldProp):
             t0 = 1000.0 + rng.random()
             rho = 1.0 if mode == "fixed" else rng.uniform(0.93, 1.07)
             inertia = {"fixed": rng.choice([0.0, 0.3, 0.5, 0.9, 1.0]), "inertia0": 0.0,
-                       "geometric": rng.choice([0.1, 0.25, 0.5]), "change": rng.choice([0.0, 0.25])}[mode]
+                       "geometric": rng.choice([0.1, 0.25, 0.5]), "change": rng.choice([0.0, 0.25]),
+                       "inert_then_change": 1.0}[mode]
+            if mode == "inert_then_change":
+                rho = 1.0
+                human_leads = False
+                humans = sorted(rng.sample(pool, nh))
             maxb = rng.choice([5, 8, 15, 15, 30])
             rows = 16 if mode != "change" else 16 + (maxb // max(1, len(humans))) + 8
+            inert_rows = 0
+            if mode == "inert_then_change":
+                # inertia 1 (the server-mode default) for a long stretch, then the band is given inertia 0 by
+                # a setting message and changes tempo: the memory must still turn over
+                inert_rows = rng.randint(2 * (maxb // len(humans)) + 6, 2 * (maxb // len(humans)) + 14)
+                rows = inert_rows + 2 + (maxb // len(humans)) + 10
             a = (t0 + rng.uniform(2.0, 6.0)) if human_leads else t0 + 3
             c = I * rho
             change = None
             if mode == "change":
                 change = (rng.randint(5, 8), c * rng.choice([0.95, 0.97, 1.03, 1.05]))
+            if mode == "inert_then_change":
+                change = (inert_rows + 2, c * rng.choice([0.96, 0.97, 1.03, 1.04]))
             events = [call(t0, LOOK_TO)] + steady_band(N, humans, a, c, gap, rows, change)
+            if mode == "inert_then_change":
+                t_set = a + c * scen.blow_index(N, gap, inert_rows, 0) + 0.3 * c
+                events.append([t_set, "msg", {"m": "setting", "kvs": [["inertia", 0]]}])
             end = a + max(c, change[1] if change else c) * scen.blow_index(N, gap, rows, 0) + 0.5
+            server = mode == "inert_then_change"
+            wb = [b for b in range(1, N + 1) if b not in humans]
             sc = {"start": 1000.0, "end": end, "tower_size": N, "events": events,
-                  "on_join": scen.humans_on_join(humans),
-                  "bot": scen.bot_cfg({"type": "plainhunt", "stage": N, "start_row": None}),
+                  "on_join": scen.humans_on_join(humans, "Wheatley", wb) if server else scen.humans_on_join(humans),
+                  "bot": scen.bot_cfg({"type": "plainhunt", "stage": N, "start_row": None},
+                                      user_name="Wheatley" if server else None, server_id=7 if server else None),
                   "rhythm": scen.rhythm_cfg("regression", inertia=inertia, peal_speed=ps, gap=gap, max_bells=maxb)}
             yield {"k": "world", "scenario": sc, "mode": mode, "a": a, "c": c, "change": change, "humans": humans,
                    "inertia": inertia, "rows": rows, "N": N, "gap": gap, "t0": t0, "maxb": maxb}
@@ -120,7 +139,7 @@ class C12(scen.WorldProp):
             elif mode == "geometric":
                 if r >= 12 and err > 1e-3:
                     return f"inertia {req['inertia']}: after {r} rows bell {b} is still {err:.4f} s off the humans' line"
-            elif mode == "change":
+            elif mode in ("change", "inert_then_change"):
                 ch = req["change"]
                 turnover = ch[0] + (req["maxb"] // nh) + 4
                 if r >= turnover + (6 if req["inertia"] > 0 else 0) and err > (1e-6 if req["inertia"] == 0 else 2e-3):
